@@ -364,6 +364,23 @@ func Exec(fsys hackpadfs.FS, st Step, hs *Handles, mt MTimeSet) (res Result) {
 	case "Sub":
 		_, err := hackpadfs.Sub(fsys, st.P)
 		fillErr(&res, err)
+	case "SubSub": // a view of directory P2 taken from a view of directory P; the result is that of the second call
+		view, err := hackpadfs.Sub(fsys, st.P)
+		if err != nil {
+			fillErr(&res, err)
+			res.Data = "first-level-failed"
+			break
+		}
+		inner, err := hackpadfs.Sub(view, st.P2)
+		fillErr(&res, err)
+		if err == nil && st.N == 0 { // (N=1: only the two Sub calls, no listing)
+			// what the nested view shows at its top (names only): it must be the directory P/P2
+			if entries, lerr := hackpadfs.ReadDir(inner, "."); lerr == nil {
+				res.Data = EntriesString(entries)
+			} else {
+				res.Data = "list:" + okFail(lerr)
+			}
+		}
 	case "Open":
 		if old := hs.get(st.Slot); old != nil {
 			_ = old.Close()
